@@ -176,6 +176,18 @@ def model_manifest(job, p):
     mdir = os.path.join(root, *pkg.split("."), "models")
     if not os.path.isdir(mdir):
         return out
+    # If models/__init__ itself cannot be imported (one broken model breaks the package), stub the package so that the
+    # other model modules can still be imported and judged in isolation
+    try:
+        importlib.import_module(f"{pkg}.models")
+    except BaseException as e:  # noqa
+        out["package_error"] = dict(exc_info(e), module=f"{pkg}.models")
+        import types as _types
+        for k in [k for k in sys.modules if k == f"{pkg}.models" or k.startswith(f"{pkg}.models.")]:
+            del sys.modules[k]
+        stub = _types.ModuleType(f"{pkg}.models")
+        stub.__path__ = [mdir]
+        sys.modules[f"{pkg}.models"] = stub
     for f in sorted(os.listdir(mdir)):
         if not f.endswith(".py") or f == "__init__.py":
             continue
@@ -186,7 +198,7 @@ def model_manifest(job, p):
             out["errors"].append(dict(exc_info(e), module=mname))
             continue
         for cname, obj in sorted(vars(mod).items()):
-            if cname.startswith("_"):
+            if cname.startswith("__"):
                 continue
             defined_here = getattr(obj, "__module__", None) == mname
             entry = None
@@ -576,8 +588,8 @@ def tag_clients(api):
 def public_methods(obj):
     res = {}
     for n in dir(type(obj)):
-        if n.startswith("_"):
-            continue
+        if n.startswith("__"):
+            continue  # a digit-leading operationId legitimately becomes e.g. `_1s`: single underscore names count
         m = getattr(type(obj), n, None)
         if inspect.iscoroutinefunction(m) or inspect.isasyncgenfunction(m):
             res[n] = m
@@ -773,6 +785,45 @@ async def discover(job, p):
     return out
 
 
+async def positional_calls(job, p):
+    """job['positional_calls'] = [{"id":.., "seg":.., "http":.., "values": [...]}]: call fn(*values) (arguments in signature order)."""
+    pkg = p["pkg"]
+    out = {"results": {}, "errors": []}
+    rec = Recorder()
+    try:
+        api = make_client(pkg, rec)
+        conv = importlib.import_module(f"{p.get('core') or pkg + '.core'}.cattrs_converter")
+    except BaseException as e:  # noqa
+        out["errors"].append(exc_info(e))
+        return out
+    index = {}
+    for tag, cl in tag_clients(api).items():
+        if isinstance(cl, BaseException):
+            continue
+        for name, fn in public_methods(cl).items():
+            r = await discovery_call(pkg, cl, fn, rec, conv.structure_from_dict, conv.unstructure_to_dict)
+            for q in r["requests"]:
+                parts = [x for x in q["path"].split("/") if x]
+                if parts:
+                    index[(parts[0], q["method"])] = (cl, name, fn)
+    for c in job.get("positional_calls", []):
+        key = (c["seg"], c["http"])
+        if key not in index:
+            out["results"][c["id"]] = {"error": "operation_not_found"}
+            continue
+        cl, name, fn = index[key]
+        rec.requests.clear()
+        rec.plan = {"status": 200, "json": {}}
+        res = {"method_name": name, "sig": sig_of(fn)}
+        try:
+            await fn(cl, *c["values"])
+        except BaseException as e:  # noqa
+            res["exc"] = exc_info(e)
+        res["requests"] = list(rec.requests)
+        out["results"][c["id"]] = res
+    return out
+
+
 async def run_calls(job, p):
     """job['calls'] = [{"id":..,"seg": "op3", "http": "GET", "args": [...], "plan": {...}, "custom_transport": bool}]"""
     pkg = p["pkg"]
@@ -952,6 +1003,8 @@ def main():
             po["discover"] = asyncio.run(discover(job, p))
         if "calls" in acts:
             po["calls"] = asyncio.run(run_calls(job, p))
+        if "positional_calls" in acts:
+            po["positional_calls"] = asyncio.run(positional_calls(job, p))
         if "roundtrips" in acts:
             po["roundtrips"] = roundtrips(job, p)
         if "exercise_models" in acts:
